@@ -41,7 +41,7 @@ def run(pid, tier, seed):
     wd = vlib.scratch("C04_%s" % tier)
     violations = []
     cfg, module = ("MC_C04_%s.cfg" % tier, "MC_core.tla")
-    mc = engine_check.model_check(cfg, module, timeout=900 if tier == "quick" else 7200)
+    mc = engine_check.model_check(cfg, module, timeout=900 if tier == "quick" else 1500)
     if mc["violated"]:
         p = os.path.join(vlib.REPLAY, pid); os.makedirs(p, exist_ok=True); p += "/tlc-counterexample-%s.txt" % tier
         open(p, "w").write(mc["out"][-200000:]); violations.append(dict(replay=p, what="TLC: invariant %s violated (%s)" % (mc["violated"], cfg), fingerprint=None))
